@@ -489,6 +489,11 @@ func decProtoOne(c *decProtoCase, seq []int, r *core.Rec, wrap func(*decProtoCas
 				// business with the recovery data the object has loaded: a caller who then reloads only the data files
 				// (the recovery files did not change) is using the object as intended
 				parityView = view(vols)
+				if rerr != nil && len(envfs.Diff(before, cur.Snapshot())) == 0 {
+					// a Repair that refused and wrote nothing leaves the object where it was: its picture of the data files
+					// is as good as before the call
+					fileView = view(paths)
+				}
 			}
 			wasOwnOnly := ownOnly
 			if fresh {
@@ -580,12 +585,16 @@ func decProtoRefSet(seed int64) *scen.P1Set {
 	a := scen.Content("uniq", seed, 0, 7, 4)
 	x := scen.Content("uniq", seed, 1, 3, 4)
 	b := []byte{}
-	es := []rpar1.Entry{rpar1.MakeEntry("a.bin", a, true), rpar1.MakeEntry("x.txt", x, false), rpar1.MakeEntry("b.bin", b, true)}
+	// two entries that are listed but not saved in the parity set - as many as there are volumes: the list of entries is
+	// then as long as the list of shards (saved files + volumes), which is where a capacity sized by one and filled by the
+	// other stops hiding
+	es := []rpar1.Entry{rpar1.MakeEntry("a.bin", a, true), rpar1.MakeEntry("x.txt", x, false), rpar1.MakeEntry("b.bin", b, true), rpar1.MakeEntry("y.nfo", x[:2], false)}
 	s := &scen.P1Set{Cfg: scen.P1Config{Sizes: []int{7, 0}, Volumes: 2}, Dir: "/d", Index: "/d/s.par",
 		Names: []string{"a.bin", "b.bin"}, Paths: []string{"/d/a.bin", "/d/b.bin"}, Data: [][]byte{a, b}}
 	fs := envfs.New()
 	fs.Put("/d/a.bin", a)
 	fs.Put("/d/x.txt", x)
+	fs.Put("/d/y.nfo", x[:2])
 	fs.Put("/d/b.bin", b)
 	fs.Put(s.Index, rpar1.Write(0, es, []byte("a comment in the index volume")))
 	for v := 1; v <= 2; v++ {
